@@ -22,6 +22,20 @@ CHECKS = {
         "ipaddress. Masks with more than 3 stray bits outside the two 12-bit windows are not enumerated.",
         "DESIGN.md 4/C05",
     ),
+    "C08": (
+        "model_checking",
+        "complete enumeration of operator x operand products against the set definitions, all "
+        "subsets of a 12-port window for the codec, and every sequence of <=3 self-assignments "
+        "through the three writable views on one real Port object",
+        "Port sets are compared exactly (ascending list == definition) for every single operand "
+        "(boundary set in quick, all 65535 in thorough), all ordered boundary pairs for range, all "
+        "ordered tuples of <=3 operands from 8 values for eq/neq; the range-string codec is closed "
+        "over all 4096 subsets at 5 offsets chosen around CPython's set-iteration wrap points; "
+        "write-back is explored as histories (39 sequences per expression, 29 expressions incl. "
+        "the ones denoting no port) with a state-unchanged invariant after every step.",
+        "Trusted: vf.refsem.sets.port_expr_mask (self-tested). Operands outside 1..65535 are C20's.",
+        "DESIGN.md 4/C08",
+    ),
     "C09": (
         "exploration",
         "complete enumeration of the finite domain (every table row, every number 1..65535 x "
